@@ -23,7 +23,13 @@ func c03Input(g *symir.Gen) ast.Schemas {
 			ast.NewStructField("type", ast.NewScalar(ast.KindString, ast.Value(v.Str("typeconst", "t1", "t2"))), ast.Required()),
 		}
 		if v.Bool("secondcandidate") {
-			fields = append(fields, ast.NewStructField("kind", ast.NewScalar(ast.KindString, ast.Value(v.Str("kindconst", "k1", "k2"))), ast.Required()))
+			kind := ast.NewStructField("kind", ast.NewScalar(ast.KindString, ast.Value(v.Str("kindconst", "k1", "k2"))), ast.Required())
+			// the candidates may be declared in a different order in each branch
+			if v.Bool("kindfirst") {
+				fields = append([]ast.StructField{kind}, fields...)
+			} else {
+				fields = append(fields, kind)
+			}
 		}
 		p.AddObject(ast.NewObject("p", n, ast.NewStruct(fields...)))
 	}
